@@ -6,6 +6,16 @@ for ensureDeferred, a plain synchronous function), the first two run on the real
 twisted.internet.defer under the schedule (tie: same timeline as the Lean driver), the third is
 the property oracle: it is run on the outcomes the awaited Deferreds really had and must log the
 same observations and end the same way.
+
+Enlarged after seeded change C05-2 (a Failure SUBCLASS instance held by an already-failed Deferred was returned as
+the VALUE of `await`) was missed: the object a Deferred is fired with is now part of the case — a value, or a
+failure given as Failure / instance of a Failure subclass / bare exception / Failure through callback(), carrying
+UserError or UserBase (a BaseException that is not an Exception) —, for scheduled fires and for cancellers; the
+awaited object itself may be an instance of a Deferred subclass and/or a Deferred that HAS been fired but is paused
+on (chained to) the Deferred the schedule fires; programs can raise/catch BaseException.  The Lean driver models the
+two ways an outcome reaches a function (`_inlineCallbacks`' isinstance test for generators and for Deferreds that
+fire while waited on; `Deferred.__await__`'s own isinstance test for a coroutine that awaits a Deferred which already
+has a result), so the kind of every function is part of the model line.
 """
 import json
 import warnings
@@ -22,12 +32,19 @@ from twisted.python.failure import Failure
 HEADLINE = "TwistedProps.C05.inline_matches_sync"
 RULE = ("random structured programs (seq/try-except/try-finally/loops/return/raise/if/plain yields/nested calls through "
         "decorated functions, bare generator and coroutine objects, ensureDeferred, fromCoroutine, `yield from`/direct await; "
-        "depth <= 4, <= 10 awaited Deferreds), each compiled as @inlineCallbacks generator AND as coroutine; every awaited "
-        "Deferred pre-fired or fired later (any order) with a value or a failure and with one of 4 canceller behaviours; "
-        "cancel() of the returned Deferred injected at every position of the schedule (once or twice); distinct = "
-        "(kind, statement kinds used, call styles, #pre-fired, #cancels that hit a waiting function, canceller kinds hit, ended?)")
+        "raise/except of a BaseException that is not an Exception; depth <= 4, <= 10 awaited Deferreds), each compiled as "
+        "@inlineCallbacks generator AND as coroutine; every awaited Deferred pre-fired or fired later (any order) with a value "
+        "or with a failure (UserError | UserBase) handed over as Failure | instance of a Failure SUBCLASS | bare exception | "
+        "Failure through callback(), and with one of 4 canceller behaviours (the failing one again in any of those classes); the "
+        "awaited object a plain Deferred | instance of a Deferred subclass | fired-but-paused Deferred chained to the one the "
+        "schedule fires; cancel() of the returned Deferred injected at every position of the schedule (once or twice); distinct = "
+        "(kind, statement kinds used, call styles, #pre-fired, #cancels that hit a waiting function, failure classes x "
+        "exception kinds delivered, awaited-object kinds, ended?)")
 ASSUMES = [
-    "each awaited Deferred is awaited once (the k-th executed await gets Deferred k) and carries no other callbacks",
+    "each awaited Deferred is awaited once (the k-th executed await gets Deferred k) and carries no other callbacks than a "
+    "pass-through recorder (and, for the 'chained' kind, the one callback that returned the Deferred it is paused on)",
+    "plain yielded values and callback() values are ints (a Failure instance yielded as a PLAIN value is raised back into an "
+    "inlineCallbacks generator — `yield` is documented as 'roughly maybeDeferred' — and is outside the statement's 'plain values')",
     "cancel() of the returned Deferred comes from outside the function (not re-entrantly from its own body or from a canceller)",
     "cancellers of awaited Deferreds return normally (C03 covers raising cancellers)",
     "the deprecated returnValue() and contextvars propagation are not exercised",
@@ -39,6 +56,9 @@ TRUSTED = [
     "return in finally, yield from) — validated on every run because the compiled Python runs on CPython",
     "Inline/Driver.lean abstracts the Deferreds created by _cancellableInlineCallbacks into an activation stack "
     "(the d0->d1 replacement chain of _handleCancelInlineCallbacks is not a model object); the tie runs the real ones",
+    "the model's awaited Deferred is one record whatever the class of the real object (Deferred / subclass in "
+    "_DEFERRED_SUBCLASSES / paused-and-chained): the model line does not carry that kind, the tie expects the same line for all; "
+    "after gen.send() Deferred.__await__ re-reads self.result — the model hands the coroutine the outcome directly",
     "harness/corr/C05.py compiler from the mini language to Python source",
 ]
 MANIFEST = {
@@ -48,7 +68,9 @@ MANIFEST = {
             "evaluation of the same program on the outcomes the awaited Deferreds had (fires at most once; exactly once iff the "
             "synchronous run ends); cancel() while waiting reaches exactly the awaited Deferred once, that Deferred gets the outcome "
             "its canceller chose (CancelledError if none) and the first thing the function logs is that outcome at the await it "
-            "was suspended at. PARTIAL: Python generator semantics and the replacement-Deferred chain are transcriptions/abstractions "
+            "was suspended at. All of it for generator and coroutine functions (Deferred.__await__'s already-fired shortcut is a "
+            "model object), for results of every failure class (Failure, Failure subclass, bare exception, Failure via callback: "
+            "fired_result_observed_by_isinstance) and for BaseException-derived exceptions. PARTIAL: Python generator semantics and the replacement-Deferred chain are transcriptions/abstractions "
             "tied by differential runs of compiled programs (generator and coroutine) against the real defer.py.",
     "note": "trusts Lean kernel, my CPS transcription of Python generator semantics, the activation-stack abstraction of nested "
             "inlineCallbacks Deferreds, the program compiler in harness/corr/C05.py",
@@ -60,12 +82,36 @@ MANIFEST = {
 
 # ----------------------------------------------------------------------------------------------
 # the mini language as JSON:  ["k"] ["a"] ["y",E] ["s",E] ["m",n] ["q",A,B] ["x",c,B,H] ["f",B,F] ["l",k,B]
-#                             ["r",E] ["e",n] ["i",n,A,B] ["c",wrapped,P,style]      E = ["L",n] | ["A"] | ["P",n]
+#                             ["r",E] ["e",n] ["eb",n] ["i",n,A,B] ["c",wrapped,P,style]      E = ["L",n] | ["A"] | ["P",n]
+# catch c: "a" Exception · "u" UserError · "c" CancelledError · "b" BaseException
+# fire outcome: ["v",n] | ["u",n,C] | ["b",n,C]  (UserError / UserBase)   C = "p" errback(Failure) · "s" errback(SubFailure) ·
+#               "r" errback(exception) · "k" callback(Failure)           (missing C = "p")
+# canceller spec: ["n"] | ["z"] | ["o",v] | ["e",n,C,"u"|"b"]            (legacy ["e",n] = ["e",n,"r","u"])
+# case["dk"][i]: how awaited Deferred i is realised: "" Deferred · "S" SubDeferred · "C" fired, paused on the Deferred the
+#               schedule fires · "SC" both
 
 class UserError(Exception):
     def __init__(self, n):
         Exception.__init__(self, n)
         self.n = n
+
+
+class UserBase(BaseException):
+    """an exception that `except Exception` does not catch"""
+
+    def __init__(self, n):
+        BaseException.__init__(self, n)
+        self.n = n
+
+
+class SubFailure(Failure):
+    """application subclass of Failure (like twisted.spread.pb.CopiedFailure)"""
+
+    origin = "remote-peer"
+
+
+class SubDeferred(Deferred):
+    """application subclass of Deferred (like DeferredList); registered in defer._DEFERRED_SUBCLASSES by __init_subclass__"""
 
 
 class _Blocked(BaseException):
@@ -96,7 +142,7 @@ def enc_prog(p):
             out.append(t)
         elif t in ("y", "s", "r"):
             out.append(t + _enc_expr(s[1]))
-        elif t in ("m", "e"):
+        elif t in ("m", "e", "eb"):
             out.append("%s%d" % (t, s[1]))
         elif t == "q":
             out.append("q"); go(s[1]); go(s[2])
@@ -109,12 +155,16 @@ def enc_prog(p):
         elif t == "i":
             out.append("i%d" % s[1]); go(s[2]); go(s[3])
         elif t == "c":
-            out.append("cw" if s[1] else "cd"); go(s[2])
+            out.append(("cwc" if _style(s) >= 2 else "cwg") if s[1] else "cd"); go(s[2])
         else:
             raise ValueError(t)
 
     go(p)
     return ",".join(out)
+
+
+def _style(s):
+    return (s[3] if len(s) > 3 else 0) % 4
 
 
 def _py_expr(e):
@@ -125,7 +175,7 @@ def _py_expr(e):
     return "(acc + %d)" % e[1]
 
 
-_CATCH = {"a": "Exception", "u": "UserError", "c": "CancelledError"}
+_CATCH = {"a": "Exception", "u": "UserError", "c": "CancelledError", "b": "BaseException"}
 
 
 class _Compiler:
@@ -208,6 +258,9 @@ class _Compiler:
             self.emit(ind, "try:")
             self.stmt(s[2], kind, ind + 1)
             self.emit(ind, "except %s as _x:" % _CATCH[s[1]])
+            if kind == "sync" and s[1] == "b":
+                # a blocked synchronous function does not reach its handlers either
+                self.emit(ind + 1, "if blocked(): raise")
             self.emit(ind + 1, "acc = code(_x)")
             self.stmt(s[3], kind, ind + 1)
         elif t == "f":
@@ -228,6 +281,8 @@ class _Compiler:
             self.emit(ind, "return " + _py_expr(s[1]))
         elif t == "e":
             self.emit(ind, "raise UserError(%d)" % s[1])
+        elif t == "eb":
+            self.emit(ind, "raise UserBase(%d)" % s[1])
         elif t == "i":
             self.emit(ind, "if acc < %d:" % s[1])
             self.stmt(s[2], kind, ind + 1)
@@ -235,7 +290,7 @@ class _Compiler:
             self.stmt(s[3], kind, ind + 1)
         elif t == "c":
             n = self.ids[id(s[2])]
-            wrapped, style = s[1], (s[3] if len(s) > 3 else 0) % 4
+            wrapped, style = s[1], _style(s)
             if kind == "sync":
                 expr = "f%d_sync()" % n
             elif kind == "gen":
@@ -285,6 +340,8 @@ def tok_value(v):
 def tok_exc(e):
     if isinstance(e, UserError):
         return "u%d" % e.n
+    if isinstance(e, UserBase):
+        return "b%d" % e.n
     if isinstance(e, CancelledError):
         return "c"
     return "other:" + type(e).__name__
@@ -294,17 +351,48 @@ def tok_result(r):
     return tok_exc(r.value) if isinstance(r, Failure) else tok_value(r)
 
 
-def _outcome_from_json(o):
-    """["v",n] | ["u",n] → the object passed to callback/errback"""
-    return o[1] if o[0] == "v" else Failure(UserError(o[1]))
+def _cls(o):
+    return o[2] if len(o) > 2 else "p"
+
+
+def _exception(kind, n):
+    return UserError(n) if kind == "u" else UserBase(n)
+
+
+def _deliver(d, kind, n, cls):
+    """hand the failure `kind n` to Deferred d the way `cls` says"""
+    exc = _exception(kind, n)
+    if cls == "p":
+        d.errback(Failure(exc))
+    elif cls == "s":
+        d.errback(SubFailure(exc))
+    elif cls == "r":
+        d.errback(exc)
+    elif cls == "k":
+        d.callback(Failure(exc))
+    else:
+        raise ValueError(cls)
 
 
 def enc_outcome(o):
-    return "%s%d" % (o[0], o[1])
+    if o[0] == "v":
+        return "v%d" % o[1]
+    return "%s%d:%s" % (o[0], o[1], _cls(o))
+
+
+def _norm_spec(c):
+    if c[0] == "e" and len(c) == 2:
+        return ["e", c[1], "r", "u"]
+    return c
 
 
 def enc_spec(c):
-    return c[0] if c[0] in "nz" else "%s%d" % (c[0], c[1])
+    c = _norm_spec(c)
+    if c[0] in "nz":
+        return c[0]
+    if c[0] == "o":
+        return "o%d" % c[1]
+    return "e%s%s%d" % (c[2], c[3], c[1])
 
 
 def enc_events(evs):
@@ -315,7 +403,8 @@ def enc_events(evs):
 
 def model_line(c):
     specs = ",".join(enc_spec(s) for s in c["specs"]) or "-"
-    return "run %s %s %s %s" % (enc_prog(c["prog"]), specs, enc_events(c["pre"]), enc_events(c["post"]))
+    return "run %s %s %s %s %s" % ("c" if c.get("kind", "gen") == "coro" else "g", enc_prog(c["prog"]), specs,
+                                    enc_events(c["pre"]), enc_events(c["post"]))
 
 
 # ----------------------------------------------------------------------------------------------
@@ -329,11 +418,13 @@ class _Run:
         self.tl = []             # timeline tokens
         self.log = []            # entries logged inside the functions (tokens)
         self.ds = []             # awaited Deferreds
+        self.gates = []          # per awaited Deferred: the Deferred the schedule fires (the same object unless chained)
         self.cancel_calls = []   # per awaited Deferred: number of cancel() calls
         self.outcomes = []       # per awaited Deferred: first outcome it had (token) or None — independent observation
         self.allocated = 0
         self.finals = []
         self.cancel_reports = []  # per cancel event: dict(waiting, awaited, before, after, log_before)
+        self.frozen = None       # the observable line, fixed when the schedule is over
         self.done = False        # set when the schedule is over: what abandoned generators do while being
                                  # finalised (GeneratorExit runs their `finally` clauses) is not an observation
 
@@ -362,19 +453,33 @@ class _Run:
             return e.n
         if isinstance(e, CancelledError):
             return 1000
+        if isinstance(e, UserBase):
+            return 2000 + e.n
         return 7777
 
     def _make_d(self):
         i = len(self.ds)
-        spec = self.case["specs"][i] if i < len(self.case["specs"]) else ["n"]
+        spec = _norm_spec(self.case["specs"][i]) if i < len(self.case["specs"]) else ["n"]
+        dks = self.case.get("dk") or []
+        dk = dks[i] if i < len(dks) else ""
         canc = None
         if spec[0] == "z":
             canc = lambda d: None
         elif spec[0] == "o":
             canc = lambda d, v=spec[1]: d.callback(v)
         elif spec[0] == "e":
-            canc = lambda d, n=spec[1]: d.errback(UserError(n))
-        d = Deferred(canc)
+            canc = lambda d, n=spec[1], c=spec[2], k=spec[3]: _deliver(d, k, n, c)
+        klass = SubDeferred if "S" in dk else Deferred
+        if "C" in dk:
+            # the awaited Deferred HAS fired but is paused: its callback returned `gate`, which the schedule fires and
+            # which owns the canceller (Deferred.cancel forwards to it)
+            gate = Deferred(canc)
+            d = klass()
+            d.addCallback(lambda _, g=gate: g)
+            d.callback(None)
+        else:
+            gate = d = klass(canc)
+        self.gates.append(gate)
         real_cancel = d.cancel
 
         def counting_cancel():
@@ -387,7 +492,7 @@ class _Run:
         self.outcomes.append(None)
 
         def rec(r):
-            if self.outcomes[i] is None:
+            if self.outcomes[i] is None and not self.done:
                 self.outcomes[i] = tok_result(r)
             return r
 
@@ -407,9 +512,9 @@ class _Run:
         self.tl.append("F%d" % i)
         try:
             if o[0] == "v":
-                self.ds[i].callback(o[1])
+                self.gates[i].callback(o[1])
             else:
-                self.ds[i].errback(Failure(UserError(o[1])))
+                _deliver(self.gates[i], o[0], o[1], _cls(o))
         except AlreadyCalledError:
             self.tl.append("!A")
 
@@ -420,7 +525,7 @@ class _Run:
             self._make_d()
         env = {
             "inlineCallbacks": inlineCallbacks, "ensureDeferred": ensureDeferred, "Deferred": Deferred,
-            "UserError": UserError, "CancelledError": CancelledError, "Plain": _Plain,
+            "UserError": UserError, "UserBase": UserBase, "CancelledError": CancelledError, "Plain": _Plain,
             "nextD": self._next_d, "log": self._log, "logval": self._logval, "logexc": self._logexc, "code": self._code,
         }
         exec(code, env)
@@ -432,6 +537,8 @@ class _Run:
             d = env["f0_deco"]() if kind == "gen" else ensureDeferred(env["f0_coro"]())
 
             def obs(r):
+                if self.done:
+                    return
                 self.finals.append(tok_result(r))
                 self.tl.append("R:" + tok_result(r))
 
@@ -450,6 +557,10 @@ class _Run:
                 else:
                     self._fire(e[1], e[2])
         self.done = True
+        # freeze the observables NOW: once `env`/`d` are dropped the suspended generators are garbage, and whenever the
+        # collector gets to them GeneratorExit runs their `finally` / `except BaseException` clauses, which may await
+        # again (nextD() → `allocated` grows) — possibly in the middle of line()
+        self.frozen = self.line()
         self._dispose(env, d)
         return self
 
@@ -459,8 +570,11 @@ class _Run:
             a.addErrback(lambda f: None)
         d.addErrback(lambda f: None)
         self.ds = []
+        self.gates = []
 
     def line(self):
+        if self.frozen is not None:
+            return self.frozen
         n = max(len(self.case["specs"]), self.allocated)
         while len(self.cancel_calls) < n:
             self.cancel_calls.append(0)
@@ -485,6 +599,8 @@ class _Run:
                 return int(o[1:])
             if o[0] == "u":
                 raise UserError(int(o[1:]))
+            if o[0] == "b":
+                raise UserBase(int(o[1:]))
             if o == "c":
                 raise CancelledError()
             raise AssertionError("outcome token " + o)
@@ -499,7 +615,7 @@ class _Run:
             if not isinstance(e, _Blocked):
                 logtok((tag, tok_exc(e)))
 
-        env = {"inlineCallbacks": lambda f: f, "UserError": UserError, "CancelledError": CancelledError,
+        env = {"inlineCallbacks": lambda f: f, "UserError": UserError, "UserBase": UserBase, "CancelledError": CancelledError,
                "take": take, "blocked": lambda: st["blocked"], "log": logtok, "logval": logval, "logexc": logexc,
                "code": self._code, "Plain": _Plain, "ensureDeferred": None, "Deferred": None, "nextD": None}
         exec(code, env)
@@ -543,12 +659,52 @@ def _quiet():
 _quiet()
 
 
+class Hang(Exception):
+    """the real code did not come back (a driver loop that never ends) — reported as `!raised Hang`"""
+
+
+def _watchdog(seconds):
+    """context manager: raise Hang in the running code after `seconds` of CPU time of this process (main thread,
+    SIGVTALRM: a stalled machine cannot trip it, a spinning driver loop does); no-op elsewhere"""
+    import contextlib
+    import signal
+    import threading
+
+    @contextlib.contextmanager
+    def cm():
+        if threading.current_thread() is not threading.main_thread() or not hasattr(signal, "setitimer"):
+            yield
+            return
+
+        def onalarm(signum, frame):
+            raise Hang()
+
+        prev = signal.signal(signal.SIGVTALRM, onalarm)
+        signal.setitimer(signal.ITIMER_VIRTUAL, seconds)
+        try:
+            yield
+        finally:
+            signal.setitimer(signal.ITIMER_VIRTUAL, 0)
+            signal.signal(signal.SIGVTALRM, prev)
+
+    return cm()
+
+
+_HANGS = [0]      # after a few hangs the budget per case drops: a broken driver loop hangs on many cases
+
+
 def _execute(case):
     key = json.dumps(case, sort_keys=True)
     if _LAST.get("key") != key:
         _LAST.clear()
+        try:
+            with _watchdog(2.0 if _HANGS[0] < 3 else 0.25 if _HANGS[0] < 10 else 0.05):
+                run = _Run(case).execute(case.get("kind", "gen"))
+        except Hang:
+            _HANGS[0] += 1
+            raise
         _LAST["key"] = key
-        _LAST["run"] = _Run(case).execute(case.get("kind", "gen"))
+        _LAST["run"] = run
     return _LAST["run"]
 
 
@@ -618,14 +774,16 @@ def _stmt(rng, depth, budget):
             return ["m", rng.randint(0, 9)]
         if r < 0.9:
             return ["r", _expr(rng)]
-        if r < 0.97:
+        if r < 0.95:
             return ["e", rng.randint(0, 9)]
+        if r < 0.98:
+            return ["eb", rng.randint(0, 9)]
         return ["k"]
     r = rng.random()
     if r < 0.34:
         return ["q", _stmt(rng, depth - 1, budget), _stmt(rng, depth - 1, budget)]
     if r < 0.50:
-        return ["x", rng.choice("aauc"), _stmt(rng, depth - 1, budget), _stmt(rng, depth - 1, budget)]
+        return ["x", rng.choice("aaaucb"), _stmt(rng, depth - 1, budget), _stmt(rng, depth - 1, budget)]
     if r < 0.64:
         return ["f", _stmt(rng, depth - 1, budget), _stmt(rng, depth - 1, budget)]
     if r < 0.74:
@@ -651,16 +809,32 @@ def _spec(rng):
         return ["z"]
     if r < 0.8:
         return ["o", rng.randint(0, 9)]
-    return ["e", rng.randint(0, 9)]
+    return ["e", rng.randint(0, 9), _fcls(rng), "u" if rng.random() < 0.8 else "b"]
 
 
-def _outcome(rng):
-    return ["v", rng.randint(0, 9)] if rng.random() < 0.65 else ["u", rng.randint(0, 9)]
+def _fcls(rng):
+    """how a failure is handed over: Failure, Failure-subclass instance, bare exception, Failure through callback()"""
+    return rng.choice("ppsssrk")
+
+
+def _outcome(rng, p_fail=0.4):
+    if rng.random() >= p_fail:
+        return ["v", rng.randint(0, 9)]
+    return ["u" if rng.random() < 0.8 else "b", rng.randint(0, 9), _fcls(rng)]
+
+
+def _dkinds(rng, n):
+    """how each awaited Deferred is realised (not visible to the model: the property does not depend on it)"""
+    r = rng.random()
+    if r < 0.35:
+        return []
+    return [rng.choice(["", "", "S", "S", "C", "SC"]) for _ in range(n)]
 
 
 def _schedule(rng, n):
     """n Deferreds: which are fired before the call, and the order of the later fires"""
-    fires = [["f", i, _outcome(rng)] for i in range(n)]
+    p_fail = rng.choice([0.2, 0.4, 0.4, 0.7])
+    fires = [["f", i, _outcome(rng, p_fail)] for i in range(n)]
     r = rng.random()
     if r < 0.25:
         pre_idx = set()
@@ -735,6 +909,36 @@ def corpus():
             {"kind": kind, "prog": seq(A, ["l", 2, ["f", A, seq(["f", ["m", 1], A], ["m", 2])]]), "specs": [["z"]], "pre": [],
              "post": [["f", 0, ["v", 0]]]},
         ]
+        # ---- how a failure reaches the function (added after seeded change C05-2 was missed)
+        three = ["l", 3, ["f", ["x", "u", A, ["m", 1]], ["m", 2]]]        # the demo's loop: try/except/finally around 3 awaits
+        for cls in "psrk":
+            out += [
+                # all three already failed / fired when the function starts
+                {"kind": kind, "prog": three, "specs": [], "pre": [["f", 0, ["u", 0, cls]], ["f", 1, ["v", 7]], ["f", 2, ["u", 2, cls]]], "post": []},
+                # Deferred 1 and 2 fire while the function waits for Deferred 0
+                {"kind": kind, "prog": three, "specs": [], "pre": [], "post": [["f", 2, ["u", 2, cls]], ["f", 1, ["u", 1, cls]], ["f", 0, ["u", 0, cls]]]},
+                # a BaseException that is not an Exception: passes `except Exception`, caught by `except BaseException`, and as final result
+                {"kind": kind, "prog": seq(["x", "b", ["x", "a", A, ["m", 1]], ["m", 2]], A), "specs": [], "pre": [["f", 0, ["b", 3, cls]]],
+                 "post": [["f", 1, ["b", 4, cls]]]},
+                # the canceller fails the Deferred with that class, twice (second time nested through a Deferred)
+                {"kind": kind, "prog": seq(["x", "u", A, ["m", 1]], ["c", True, ["x", "b", A, ["m", 2]], 2], ["r", ["A"]]),
+                 "specs": [["e", 5, cls, "u"], ["e", 6, cls, "b"]], "pre": [], "post": [["x"], ["x"]]},
+            ]
+        for dk in ("S", "C", "SC"):
+            out += [
+                # the awaited object is a Deferred-subclass instance / a fired Deferred paused on another one
+                {"kind": kind, "prog": seq(A, ["x", "a", A, ["m", 1]], A, ["r", ["A"]]), "specs": [["n"], ["z"], ["o", 4]], "dk": [dk] * 3,
+                 "pre": [["f", 1, ["u", 3, "s"]]], "post": [["f", 0, ["v", 1]], ["x"], ["f", 2, ["v", 9]]]},
+                {"kind": kind, "prog": seq(A, A), "specs": [["n"], ["n"]], "dk": [dk, dk], "pre": [["f", 0, ["v", 2]]],
+                 "post": [["x"], ["f", 1, ["v", 1]], ["f", 1, ["v", 1]]]},
+            ]
+        # coroutine nested in a generator nested in a coroutine, the innermost awaits already-failed Deferreds
+        out += [
+            {"kind": kind, "prog": ["c", True, ["c", True, three, 2], 0], "specs": [],
+             "pre": [["f", 0, ["u", 0, "s"]], ["f", 2, ["b", 2, "s"]]], "post": [["f", 1, ["v", 7]]]},
+            {"kind": kind, "prog": ["f", ["c", False, three, 0], ["eb", 1]], "specs": [], "pre": [["f", 1, ["u", 0, "s"]]],
+             "post": [["f", 0, ["u", 5, "k"]], ["f", 2, ["v", 1]]]},
+        ]
     return out
 
 
@@ -746,6 +950,9 @@ def generate(rng, tier):
         specs = [_spec(rng) for _ in range(n)]
         pre, post = _schedule(rng, n)
         base = {"kind": "gen", "prog": prog, "specs": specs, "pre": pre, "post": post}
+        dk = _dkinds(rng, n)
+        if any(dk):
+            base["dk"] = dk
         for c in _with_cancels(rng, base, tier):
             yield c
             c2 = dict(c)
@@ -765,6 +972,8 @@ def _kinds(p, acc):
         acc.add("c%s%d" % (("w", (p[3] if len(p) > 3 else 0) % 4) if p[1] else ("d", 0)))
     elif t == "x":
         acc.add("x" + p[1])
+    elif t == "eb":
+        acc.add("E")
     else:
         acc.add(t)
     for i in _KIDS.get(t, []):
@@ -775,8 +984,17 @@ def _kinds(p, acc):
 def tag(case, out):
     ks = "".join(sorted(_kinds(case["prog"], set())))
     hit = out.count("X,a:")          # cancels that resumed a waiting function
-    return "%s|%s|pre%d|x%d|%s|%s" % (case.get("kind"), ks, min(len(case["pre"]), 3), hit, "end" if "R:" in out else "wait",
-                                      "A" if "!A" in out else "")
+    fc = set()
+    for e in case["pre"] + case["post"]:
+        if e[0] == "f" and e[2][0] != "v":
+            fc.add(_cls(e[2]) + e[2][0])
+    for sp in case["specs"]:
+        sp = _norm_spec(sp)
+        if sp[0] == "e":
+            fc.add("x" + sp[2] + sp[3])
+    dk = "".join(sorted(set("".join(case.get("dk") or []))))
+    return "%s|%s|pre%d|x%d|%s|%s|%s|%s" % (case.get("kind"), ks, min(len(case["pre"]), 3), hit, "end" if "R:" in out else "wait",
+                                            "A" if "!A" in out else "", ".".join(sorted(fc)), dk)
 
 
 def _sub(p):
@@ -795,6 +1013,8 @@ def _sub(p):
 
 
 def shrink(case):
+    if _HANGS[0] >= 10:
+        return          # every candidate would cost a watchdog timeout
     for key in ("post", "pre"):
         evs = case[key]
         for i in range(len(evs)):
@@ -810,11 +1030,29 @@ def shrink(case):
         if s != ["n"]:
             c = dict(case); c["specs"] = case["specs"][:i] + [["n"]] + case["specs"][i + 1:]
             yield c
+    if case.get("dk"):
+        c = dict(case); del c["dk"]
+        yield c
+        for i, k in enumerate(case["dk"]):
+            if k:
+                c = dict(case); c["dk"] = case["dk"][:i] + [""] + case["dk"][i + 1:]
+                yield c
+    for key in ("post", "pre"):
+        evs = case[key]
+        for i, e in enumerate(evs):
+            if e[0] == "f" and e[2][0] != "v":
+                if _cls(e[2]) != "p":
+                    c = dict(case); c[key] = evs[:i] + [["f", e[1], [e[2][0], e[2][1], "p"]]] + evs[i + 1:]
+                    yield c
+                c = dict(case); c[key] = evs[:i] + [["f", e[1], ["v", e[2][1]]]] + evs[i + 1:]
+                yield c
 
 
 def search(rng, tier, disagreeing):
     """all cancellation points (single and double) and many firing orders of the disagreeing programs, both kinds"""
     import itertools
+    if _HANGS[0] >= 10:
+        return          # the driver loops for ever on many cases: the witnesses found so far say it all
     for case in disagreeing[:5]:
         fires = [e for e in case["pre"] + case["post"] if e[0] == "f"]
         orders = list(itertools.permutations(fires)) if len(fires) <= 4 else [tuple(rng.sample(fires, len(fires))) for _ in range(24)]
@@ -823,6 +1061,8 @@ def search(rng, tier, disagreeing):
                 pre, post = list(order[:npre]), list(order[npre:])
                 for kind in ("gen", "coro"):
                     base = {"kind": kind, "prog": case["prog"], "specs": case["specs"], "pre": pre, "post": post}
+                    if case.get("dk"):
+                        base["dk"] = case["dk"]
                     yield base
                     for j in range(len(post) + 1):
                         c = dict(base); c["post"] = post[:j] + [["x"]] + post[j:]
